@@ -16,6 +16,7 @@ import (
 	"github.com/hknutzen/Netspoc-Approve/go/pkg/nsx"
 	"github.com/hknutzen/Netspoc-Approve/go/pkg/panos"
 	"github.com/hknutzen/Netspoc-Approve/go/pkg/program"
+	"github.com/hknutzen/Netspoc-Approve/go/pkg/verifhook"
 )
 
 type RealDevice interface {
@@ -168,6 +169,7 @@ func (s *state) applyCommands() error {
 		errlog.DoLog(logFH, "No changes applied")
 		return nil
 	}
+	verifhook.Point("device:before-apply")
 	return s.ApplyCommands(logFH)
 }
 
